@@ -380,7 +380,7 @@ pub fn run(args: Args) -> ! {
             rep.violation("fixture", None, &fl);
         }
     }
-    let run = run_tape("C20.visit", &prop, 3000, args.tier.pick(40_000, 1_000_000), args.seed, workers());
+    let run = run_tape("C20.visit", &prop, 3000, args.tier.pick(200_000, 2_000_000), args.seed, workers());
     finish_run(&mut rep, "visit", run);
     for c in ["aot-header", "inline-table", "dotted-key", "array", "events", "verbatim-fragments"] {
         rep.require_class(c);
